@@ -646,6 +646,10 @@ func runC05(c *fw.Ctx) {
 			wg.Add(1)
 			go func(i int) { defer wg.Done(); c05Reuse(c, i) }(i)
 		}
+		for i := 0; i < c.Pick(6, 30); i++ {
+			wg.Add(1)
+			go func(i int) { defer wg.Done(); c05Shutdown(c, i) }(i)
+		}
 		wg.Wait()
 	}
 	if len(base) > 0 {
@@ -654,4 +658,69 @@ func runC05(c *fw.Ctx) {
 	}
 	c.Floor("forwardings_with_failed_write", 20)
 	c.Floor("forwardings_checked", 100)
+}
+
+// c05Shutdown: the publisher's node starts shutting down (its context is cancelled) while the write
+// to another node that hosts a matching subscriber is still pending. The pending call is aborted: the
+// message was not accepted by that node's log, so no acknowledgement may reach the publisher.
+func c05Shutdown(c *fw.Ctx, i int) {
+	fw.LogCase("C05 shutdown %d", i)
+	cl := kit.NewCluster(kit.WorkDir("c05s"))
+	defer cl.Close()
+	n1, err := cl.AddNode(kit.NodeOpts{ID: 1})
+	if err != nil {
+		c.Inconclusive("cannot start node: " + err.Error())
+		return
+	}
+	n2, err := cl.AddNode(kit.NodeOpts{ID: 2})
+	if err != nil {
+		c.Inconclusive("cannot start node: " + err.Error())
+		return
+	}
+	w, err := n2.MustConnect(kit.ConnectOpts{ClientID: "w", KeepAlive: 600, Clean: true})
+	if err != nil {
+		c.Inconclusive("connect: " + err.Error())
+		return
+	}
+	defer w.Close()
+	w.Sub1("c05/#", i%2)
+	cl.Quiesce()
+	pub, err := n1.MustConnect(kit.ConnectOpts{ClientID: "p", KeepAlive: 600, Clean: true})
+	if err != nil {
+		c.Inconclusive("connect: " + err.Error())
+		return
+	}
+	defer pub.Close()
+	qos := 1 + i%2
+	tag := fmt.Sprintf("c05-shutdown-%d", i)
+	n2.Log.CloseGate()
+	defer n2.Log.OpenGate()
+	from := pub.NumEvents()
+	pub.Send(kit.EncPublish("c05/t", []byte(tag), qos, false, false, 9))
+	if qos == 2 {
+		if _, _, err := pub.WaitFor(from, kit.DefaultWait, func(e kit.Event) bool { return e.Pkt.Type == kit.PUBREC && e.Pkt.ID == 9 }); err != nil {
+			c.Inconclusive("no PUBREC")
+			return
+		}
+		pub.Send(kit.EncPubRel(9))
+	}
+	// the remote node is inside its Append (blocked at the gate): the forwarding call is pending
+	if !waitCount(func() int { return n2.Log.Calls() }, 1, 30*time.Second) {
+		c.Inconclusive("the remote write never started")
+		return
+	}
+	n1.CancelContext()
+	time.Sleep(300 * time.Millisecond)
+	n2.Log.SetFail(func(*packet.Publish, int) error { return errInjected }) // and the write it was blocked in fails
+	n2.Log.OpenGate()
+	time.Sleep(200 * time.Millisecond)
+	c.Observe("shutdown_scenarios", 1)
+	c.Case(fmt.Sprintf("shutdown|%d", i), true)
+	for _, e := range pub.Events()[from:] {
+		if (e.Pkt.Type == kit.PUBACK || e.Pkt.Type == kit.PUBCOMP) && e.Pkt.ID == 9 {
+			c.Violation("acknowledged-despite-failed-write:remote-during-shutdown", fmt.Sprintf("shutdown scenario %d (QoS %d): the publisher's node was shutting down while the write to node 2 was pending; the call was aborted and node 2's log rejected the message, yet %s was sent", i, qos, e.Pkt),
+				map[string]interface{}{"scenario": i, "qos": qos})
+			return
+		}
+	}
 }
